@@ -40,9 +40,13 @@ impl PreloadUnverifiedBlocksChannel {
 
     pub(crate) fn start(&self) {
         loop {
+            #[cfg(feature = "verif-hooks")]
+            crate::verif::point("preload:idle", &Default::default());
             select! {
                 recv(self.preload_unverified_rx) -> msg => match msg {
                     Ok(preload_unverified_block_task) =>{
+                        #[cfg(feature = "verif-hooks")]
+                        crate::verif::point("preload:recv", &preload_unverified_block_task.block_number_and_hash.hash());
                         self.preload_unverified_channel(preload_unverified_block_task);
                     },
                     Err(_err) =>{
@@ -73,6 +77,8 @@ impl PreloadUnverifiedBlocksChannel {
                 .set(self.unverified_block_tx.len() as i64)
         };
 
+        #[cfg(feature = "verif-hooks")]
+        crate::verif::point("preload:send", &block_hash);
         if self.unverified_block_tx.send(unverified_block).is_err() {
             info!(
                 "send unverified_block to unverified_block_tx failed, the receiver has been closed"
@@ -95,6 +101,8 @@ impl PreloadUnverifiedBlocksChannel {
         let block_number = task.block_number_and_hash.number();
         let parent_hash = task.parent_hash.clone();
 
+        #[cfg(feature = "verif-hooks")]
+        crate::verif::point("preload:load", &block_hash);
         let loaded = self.shared.store().get_block(&block_hash).and_then(|block| {
             self.shared
                 .store()
@@ -107,6 +115,8 @@ impl PreloadUnverifiedBlocksChannel {
                 "unverified block {}-{} or its parent {} was removed before it could be verified",
                 block_number, block_hash, parent_hash
             );
+            #[cfg(feature = "verif-hooks")]
+            crate::verif::point("preload:reject", &block_hash);
             delete_unverified_block(
                 self.shared.store(),
                 block_hash.clone(),
